@@ -315,8 +315,34 @@ pub enum IdlerD {
   Cfg(BeamD),
 }
 
+/// how each string-valued "auto" field is spelled in the JSON (the canonical spelling is "auto"; the
+/// deserialiser takes ANY string in these places as an auto request: `AutoCalcParam::Auto(String)`)
+#[derive(Clone, Debug)]
+pub struct AutoSp {
+  pub theta: String,
+  pub s_wpos: String,
+  pub idler: String,
+  pub i_wpos: String,
+  pub period: String,
+}
+impl Default for AutoSp {
+  fn default() -> Self {
+    AutoSp { theta: "auto".into(), s_wpos: "auto".into(), idler: "auto".into(), i_wpos: "auto".into(), period: "auto".into() }
+  }
+}
+impl AutoSp {
+  pub fn all(sp: &str) -> Self {
+    AutoSp { theta: sp.into(), s_wpos: sp.into(), idler: sp.into(), i_wpos: sp.into(), period: sp.into() }
+  }
+}
+
+/// spellings of an auto request other than the canonical one: capitalisations, the empty string, arbitrary
+/// words, strings that look like other JSON values
+pub const AUTO_SPELLINGS: [&str; 12] = ["auto", "Auto", "AUTO", "automatic", "", " auto", "a", "null", "0", "12.5", "off", "Param"];
+
 #[derive(Clone, Debug)]
 pub struct Desc {
+  pub auto_sp: AutoSp,
   pub kind: usize,
   pub pm: usize,
   pub pm_spelling: String,
@@ -345,11 +371,11 @@ fn num(x: f64) -> Value {
   }
 }
 
-fn auto_json(m: &mut Map<String, Value>, key: &str, a: &AutoV) {
+fn auto_json(m: &mut Map<String, Value>, key: &str, a: &AutoV, sp: &str) {
   match a {
     AutoV::Absent => {}
     AutoV::Auto => {
-      m.insert(key.into(), json!("auto"));
+      m.insert(key.into(), json!(sp));
     }
     AutoV::Val(x) => {
       m.insert(key.into(), num(*x));
@@ -362,14 +388,14 @@ fn opt_json(m: &mut Map<String, Value>, key: &str, a: &Option<f64>) {
   }
 }
 
-fn beam_json(b: &BeamD) -> Value {
+fn beam_json(b: &BeamD, sp: &str) -> Value {
   let mut m = Map::new();
   m.insert("wavelength_nm".into(), num(b.wl));
   opt_json(&mut m, "phi_deg", &b.phi);
   opt_json(&mut m, "theta_deg", &b.theta);
   opt_json(&mut m, "theta_external_deg", &b.theta_e);
   m.insert("waist_um".into(), num(b.waist));
-  auto_json(&mut m, "waist_position_um", &b.wpos);
+  auto_json(&mut m, "waist_position_um", &b.wpos, sp);
   Value::Object(m)
 }
 
@@ -388,7 +414,7 @@ impl Desc {
     c.insert("kind".into(), json!(CRYSTAL_IDS[self.kind]));
     c.insert("pm_type".into(), json!(self.pm_spelling));
     opt_json(&mut c, "phi_deg", &self.c_phi);
-    auto_json(&mut c, "theta_deg", &self.c_theta);
+    auto_json(&mut c, "theta_deg", &self.c_theta, &self.auto_sp.theta);
     c.insert("length_um".into(), num(self.length));
     c.insert("temperature_c".into(), num(self.temp));
     if let Some(b) = self.cp {
@@ -403,14 +429,14 @@ impl Desc {
     let mut top = Map::new();
     top.insert("crystal".into(), Value::Object(c));
     top.insert("pump".into(), Value::Object(p));
-    top.insert("signal".into(), beam_json(&self.signal));
+    top.insert("signal".into(), beam_json(&self.signal, &self.auto_sp.s_wpos));
     match &self.idler {
       IdlerD::Absent => {}
       IdlerD::Auto => {
-        top.insert("idler".into(), json!("auto"));
+        top.insert("idler".into(), json!(self.auto_sp.idler));
       }
       IdlerD::Cfg(b) => {
-        top.insert("idler".into(), beam_json(b));
+        top.insert("idler".into(), beam_json(b, &self.auto_sp.i_wpos));
       }
     }
     match &self.poling {
@@ -420,7 +446,7 @@ impl Desc {
       }
       PolingD::Cfg { period, apod } => {
         let mut m = Map::new();
-        auto_json(&mut m, "poling_period_um", period);
+        auto_json(&mut m, "poling_period_um", period, &self.auto_sp.period);
         if let Some(a) = apod {
           m.insert("apodization".into(), apod_json(a));
         }
@@ -740,6 +766,7 @@ pub fn gen_valid(r: &mut Rng) -> Desc {
     }
   };
   Desc {
+    auto_sp: AutoSp::default(),
     kind,
     pm,
     pm_spelling,
@@ -2341,6 +2368,188 @@ fn debug_json(path: &str) {
   }
 }
 
+/// every auto-capable field of `d` requested as automatic (crystal angle, signal / idler waist position,
+/// idler unless it is configured); poling removed (an auto crystal angle with poling is an error)
+fn all_auto(d: &mut Desc) {
+  d.c_theta = AutoV::Auto;
+  d.poling = PolingD::Absent;
+  d.signal.wpos = AutoV::Auto;
+  match &mut d.idler {
+    IdlerD::Cfg(b) => b.wpos = AutoV::Auto,
+    other => *other = IdlerD::Auto,
+  }
+}
+
+/// the Rust struct route: the configuration deserialised from the canonically spelled JSON, every auto
+/// field then overwritten with `AutoCalcParam::Auto(<the descriptor's spelling>)`;
+/// None = the canonical JSON does not deserialise, Some(None) = panic
+fn struct_route(d: &Desc) -> Option<Option<Result<SPDC, String>>> {
+  let mut canon = d.clone();
+  canon.auto_sp = AutoSp::default();
+  let mut cfg: SPDCConfig = guard(|| serde_json::from_str::<SPDCConfig>(&canon.json().to_string()).ok()).flatten()?;
+  let sp = &d.auto_sp;
+  if cfg.crystal.theta_deg.is_auto() {
+    cfg.crystal.theta_deg = AutoCalcParam::Auto(sp.theta.clone());
+  }
+  if cfg.signal.waist_position_um.is_auto() {
+    cfg.signal.waist_position_um = AutoCalcParam::Auto(sp.s_wpos.clone());
+  }
+  match &mut cfg.idler {
+    AutoCalcParam::Param(i) => {
+      if i.waist_position_um.is_auto() {
+        i.waist_position_um = AutoCalcParam::Auto(sp.i_wpos.clone());
+      }
+    }
+    other => *other = AutoCalcParam::Auto(sp.idler.clone()),
+  }
+  if let PeriodicPolingConfig::Config { poling_period_um, .. } = &mut cfg.periodic_poling {
+    if poling_period_um.is_auto() {
+      *poling_period_um = AutoCalcParam::Auto(sp.period.clone());
+    }
+  }
+  Some(guard(|| cfg.try_as_spdc().map_err(|e| e.0)))
+}
+
+/// the listed errors through the struct route, and the same outcome as the JSON route
+fn c17_struct_case(ctx: &mut Ctx, d: &Desc, tag: &str) {
+  if !(in_window(d, false) && physical(d)) {
+    return;
+  }
+  let out = match struct_route(d) {
+    Some(o) => o,
+    None => {
+      ctx.count("spelling/struct-route-not-deserialisable");
+      return;
+    }
+  };
+  let json_out = run_desc(d).outcome;
+  let det = format!("edits={} route=struct auto_spellings={:?} {}", tag, d.auto_sp, detail(d)).replace("\n", " ");
+  let same = match (&out, &json_out) {
+    (None, None) => true,
+    (Some(Err(_)), Some(Err(_))) => true,
+    (Some(Ok(a)), Some(Ok(b))) => a == b,
+    _ => false,
+  };
+  ctx.s("C17.no_panic", same, "construct/struct-route-same-outcome", &det);
+  ctx.count(&format!("spelling/struct-route-outcome={}", match &out { None => "panic", Some(Ok(_)) => "ok", Some(Err(_)) => "err" }));
+  if out.is_none() {
+    return; // (a panic is classified on the JSON route, which gives the same outcome)
+  }
+  let is_err = matches!(out, Some(Err(_)));
+  if d.signal.theta.is_some() == d.signal.theta_e.is_some() {
+    ctx.s("C17.listed", is_err, "listed/signal-angles/struct-route", &det);
+  }
+  if matches!(d.c_theta, AutoV::Auto | AutoV::Absent) && matches!(d.poling, PolingD::Cfg { .. }) {
+    ctx.s("C17.listed", is_err, "listed/autotheta+pp/struct-route", &det);
+  }
+  if d.signal.wl <= d.p_wl {
+    ctx.s("C17.listed", is_err, "listed/ls<=lp/struct-route", &det);
+  }
+}
+
+/// Every spelling of an auto request the deserialiser accepts, in each of the four listed error rules and
+/// in plain valid configurations, through JSON and through the struct route.
+fn spelling_cases_c17(ctx: &mut Ctx) {
+  let nrep = if ctx.thorough { 10 } else { 2 };
+  for rep in 0..nrep {
+    for (i, sp) in AUTO_SPELLINGS.iter().enumerate() {
+      let base = gen_valid(&mut ctx.rng);
+      // which fields the deserialiser takes as an auto request in this spelling (statistics)
+      let mut probe = base.clone();
+      all_auto(&mut probe);
+      probe.auto_sp = AutoSp::all(sp);
+      let accepted = guard(|| serde_json::from_str::<SPDCConfig>(&probe.json().to_string()).ok()).flatten().map(|c| c.crystal.theta_deg.is_auto() && c.signal.waist_position_um.is_auto());
+      ctx.count(&format!("spelling/{:?}/accepted-as-auto={:?}", sp, accepted));
+      let mut both = |ctx: &mut Ctx, e: &Desc, tag: &str| {
+        c17_case(ctx, e, tag, false);
+        c17_struct_case(ctx, e, tag);
+      };
+      // (1) auto crystal angle together with poling: auto period, explicit period, explicit + apodization
+      for variant in 0..3 {
+        let mut e = base.clone();
+        e.auto_sp = AutoSp::all(sp);
+        e.c_theta = AutoV::Auto;
+        let per = AutoV::Val(((5.0 + 75.0 * ctx.rng.unit()) * 100.0).round() / 100.0);
+        e.poling = match variant {
+          0 => PolingD::Cfg { period: AutoV::Auto, apod: None },
+          1 => PolingD::Cfg { period: per, apod: None },
+          _ => PolingD::Cfg { period: per, apod: Some(ApodD::Gaussian(1500.0)) },
+        };
+        if (rep + i + variant) % 5 == 0 {
+          // only the crystal angle in the odd spelling
+          e.auto_sp = AutoSp { theta: sp.to_string(), ..AutoSp::default() };
+        }
+        both(ctx, &e, "spelling:autotheta+pp");
+      }
+      // (2) both / neither signal angle, every auto field in this spelling
+      let mut e = base.clone();
+      all_auto(&mut e);
+      e.auto_sp = AutoSp::all(sp);
+      if (rep + i) % 2 == 0 {
+        e.signal.theta = Some(0.5);
+        e.signal.theta_e = Some(1.0);
+      } else {
+        e.signal.theta = None;
+        e.signal.theta_e = None;
+      }
+      both(ctx, &e, "spelling:signal-angles");
+      // (3) signal wavelength not longer than the pump's, whatever else is auto
+      let mut e = base.clone();
+      all_auto(&mut e);
+      e.auto_sp = AutoSp::all(sp);
+      e.idler = IdlerD::Auto;
+      e.signal.wl = if (rep + i) % 3 == 0 { (e.p_wl * 0.97 * 10.0).round() / 10.0 } else { e.p_wl };
+      both(ctx, &e, "spelling:ls<=lp");
+      // (4) a period that cannot phase-match within the crystal: short crystal, auto period in this spelling
+      let mut e = base.clone();
+      e.auto_sp = AutoSp::all(sp);
+      e.poling = PolingD::Cfg { period: AutoV::Auto, apod: None };
+      if matches!(e.c_theta, AutoV::Auto | AutoV::Absent) {
+        e.c_theta = AutoV::Val(90.);
+      }
+      e.length = *ctx.rng.pick(&[0.5, 1.0, 2.0, 3.0, 5.0, 8.0, 12.0, 20.0, 50.0]);
+      period_range_case(ctx, &e);
+      both(ctx, &e, "spelling:short-crystal-auto-period");
+      // (5) valid: every auto field in this spelling, no poling / poling with an explicit crystal angle
+      let mut e = base.clone();
+      if (rep + i) % 2 == 0 {
+        all_auto(&mut e);
+      } else {
+        e.poling = PolingD::Cfg { period: AutoV::Auto, apod: None };
+        if matches!(e.c_theta, AutoV::Auto | AutoV::Absent) {
+          e.c_theta = AutoV::Val(90.);
+        }
+        e.signal.wpos = AutoV::Auto;
+      }
+      e.auto_sp = AutoSp::all(sp);
+      both(ctx, &e, "spelling:valid");
+    }
+  }
+}
+
+/// C16: fields given as an auto request in any accepted spelling produce what the explicit call returns
+fn spelling_cases_c16(ctx: &mut Ctx) {
+  let nrep = if ctx.thorough { 6 } else { 1 };
+  for rep in 0..nrep {
+    for (i, sp) in AUTO_SPELLINGS.iter().enumerate() {
+      let mut d = gen_valid(&mut ctx.rng);
+      if (rep + i) % 2 == 0 {
+        all_auto(&mut d);
+      } else {
+        d.poling = PolingD::Cfg { period: AutoV::Auto, apod: None };
+        if matches!(d.c_theta, AutoV::Auto | AutoV::Absent) {
+          d.c_theta = AutoV::Val(90.);
+        }
+        d.signal.wpos = AutoV::Auto;
+        d.idler = IdlerD::Auto;
+      }
+      d.auto_sp = AutoSp::all(sp);
+      ctx.count(&format!("config/auto-spelling={:?}", sp));
+      c16_case(ctx, &d);
+    }
+  }
+}
+
 pub fn run(ctx: &mut Ctx) {
   if ctx.extra.first().map(|s| s.as_str()) == Some("json") {
     debug_json(&ctx.extra[1]);
@@ -2479,6 +2688,7 @@ pub fn run(ctx: &mut Ctx) {
         defaults_case(ctx, &d);
       }
     }
+    spelling_cases_c16(ctx);
   } else {
     let nspec = if ctx.thorough { ctx.n / 4 } else { ctx.n / 8 };
     for k in 0..ctx.n {
@@ -2657,5 +2867,6 @@ pub fn run(ctx: &mut Ctx) {
       let run = run_desc(&d);
       k_try(ctx, &d, &run);
     }
+    spelling_cases_c17(ctx);
   }
 }
